@@ -57,7 +57,7 @@ REQUIRED_FEATURES = {
         **{
             "param-supplied": 50, "param-default": 50, "parallel-default-inherited": 50, "parallel-default-overridden": 20,
             "completed-by-name": 20, "completed-by-any": 20, "include-challenge": 20, "include-task": 20, "collect-challenges": 20,
-            "collect-operations": 20, "nested-collect": 10, "op-by-reference": 50, "op-type-string": 50, "corpus-level-defaults": 50, "index-body-file": 50,
+            "collect-operations": 20, "nested-collect": 10, "param-in-imported-macro": 10, "op-by-reference": 50, "op-type-string": 50, "corpus-level-defaults": 50, "index-body-file": 50,
             "multiple-challenges": 50, "top-level-schedule": 50, "via-load_track": 50, "params-as-kv": 20, "params-as-json": 20,
             "parallel-ramp-up": 10, "conditional-task-off": 5, "conditional-task-on": 5, "param-only-in-collect-part": 5,
             "param-only-in-body-file": 5, "same-task-name-in-two-challenges": 20, "single-challenge-default-false": 10,
@@ -851,7 +851,7 @@ def one_case(ctx, rng, i, root, doc_types):
     feats = set(g.features) | lfeats
     feats.add("params-as-json" if case["cli"].startswith("{") else ("params-as-kv" if case["cli"] else "no-params"))
     for n, where in case["refs"].items():
-        if where in (["collect-part"], ["body-file"], ["jinja-include"], ["macro-part"]):
+        if where in (["collect-part"], ["body-file"], ["jinja-include"], ["macro-part"], ["imported-macro-file"]):
             feats.add("param-only-in-" + where[0])
     if case["via"] == "load_track":
         feats.add("via-load_track")
